@@ -1,0 +1,26 @@
+//go:build verif
+
+package zap
+
+import (
+	"fmt"
+
+	"go.uber.org/zap/zapcore"
+)
+
+// Hook for the verifier (build tag verif only; no effect on any normal build): the generic array
+// constructors Objects, ObjectValues and Stringers have no instantiation in the non-test program, so
+// there is no code for the verification-condition generator to look at. The instantiations below
+// give it one instance of each: with the interface type itself where the constraint allows it
+// (every behaviour of String / MarshalLogObject is then behind the interface contract), and with a
+// minimal pointer-receiver marshaler for ObjectValues.
+
+type verifObj struct{}
+
+func (*verifObj) MarshalLogObject(zapcore.ObjectEncoder) error { return nil }
+
+var (
+	_ = Stringers[fmt.Stringer]
+	_ = Objects[zapcore.ObjectMarshaler]
+	_ = ObjectValues[verifObj, *verifObj]
+)
